@@ -72,7 +72,7 @@ func TestC12(t *testing.T) {
 	rec := vk.New("C12", "mutate")
 	defer rec.Finish(t)
 	thorough := vk.Tier() == "thorough"
-	rec.Rule("case = (licence version, issued key, mutation): every single-bit flip of the 24 decoded bytes, every single-character substitution at every position, XOR of structured masks on each field, swaps of 8-byte blocks and 4-character groups, truncation/extension" +
+	rec.Rule("case = (licence version, issued key, mutation): every single-bit flip of the 24 decoded bytes, every single-character substitution at every position, XOR of structured masks on each field, every single identity bit (master id, contract, signature) combined with permission-byte rewrites, swaps of 8-byte blocks and 4-character groups, truncation/extension" +
 		map[bool]string{true: ", splices between keys of equal salt", false: ""}[thorough] + "; the mutated string's grants over a probe set (44 channels x 6 operations + 'may mint keys') on the real Service.Authorize are compared with the original's; " +
 		"non-trivial = the mutated string differs from the original and is accepted for at least one probe (decrypts and validates); all mutated strings are counted in evaluations; distinct = (licence, key, mutated string)")
 	probes := c12Probes()
@@ -223,6 +223,33 @@ func c12Mutations(orig string, raw []byte, thorough bool) []string {
 			c[15] ^= m
 			c[off] ^= 0xff
 			out = append(out, enc(c))
+		}
+	}
+	// one bit of an identity field (master id, contract, signature) together with the permission byte:
+	// set to "master only", write added, everything
+	perm := raw[15]
+	for bit := 16; bit < 96; bit++ {
+		for _, pm := range []byte{perm ^ 0x01, 0x04, 0xfe, 0x7e &^ perm} {
+			if pm == 0 {
+				continue
+			}
+			c := append([]byte(nil), raw...)
+			c[bit/8] ^= 1 << uint(bit%8)
+			c[15] ^= pm
+			out = append(out, enc(c))
+		}
+	}
+	// whole-byte masks on each identity byte together with "master only"
+	for off := 2; off < 12; off++ {
+		for _, m := range []byte{0xff, 0x0f, 0xf0, 0x55} {
+			c := append([]byte(nil), raw...)
+			c[off] ^= m
+			c[15] ^= perm ^ 0x01
+			out = append(out, enc(c))
+			c2 := append([]byte(nil), raw...)
+			c2[off] ^= m
+			c2[15] ^= 0x04
+			out = append(out, enc(c2))
 		}
 	}
 	// swaps of 8-byte blocks and of 4-character groups
